@@ -1,4 +1,4 @@
-\* the window of the connection strata must be reachable: TLC must violate NoReadOverOlderConnection
+\* MC_Compress_baredropped.cfg1
 SPECIFICATION Spec
 CONSTANTS
   Keys = {"k1"}
@@ -8,7 +8,10 @@ CONSTANTS
   MaxVals = 1
   HookDepth = 2
   OwnBytes = TRUE
-  Nodes = {"a", "b"}
+  Nodes = {}
   ConnConfig = "live"
-INVARIANTS NoReadOverOlderConnection
+  BareUpdate = "off-dropped"
+  Sizes = {0}
+  ReadLimit = 0
+INVARIANTS ReadBack
 CHECK_DEADLOCK FALSE
